@@ -63,13 +63,17 @@ def _depth2():
              '-a', 'not a', 'a + b', 'a and b', '*a', 'a.b.c', '1.5', '1e10', '0x10', "b'x'", 'None', 'True', '...',
              "f'{a}\\n{b}'", "f'x{a!r:>10}y'", "f'''{a}\n{b}'''", "f'{a} {b}'", "'a\\nb'", "'''a\nb'''", "b'a\\nb'",
              "lambda x: 'a\\nb'", "a if 'x\\ny' else b",
+             'b"it\'s"', "b'q\"q'", "'a\\x00b'", "'\\x1f\\x7f'", "'it\\'s'", '1e999', 'x[(a, b):c]',
+             "re.compile(r'[a\\-z]')", "re.compile('(?i:ab)')", "re.compile(r'\\d+(?P<n>x)')",
              '[x for x in y]', '{x: y for x in z}', '(x for x in y)', 'a[(b, c)]', 'a[b][c]', 'f(a)(b)', '(a, (b,))', '[(a,)]']
     for f in forms:
         if not f.startswith('*'):
             yield f
     wrappers = ['[{0}]', '({0},)', '({0}, b)', 'f({0})', 'f(k={0})', '{{k: {0}}}', 'x[{0}]', '({0}).attr', '-({0})', 'not ({0})',
                 '({0}) + y', 'y - ({0})', '({0}) and y', '({0}) if c else d', 'c if ({0}) else d', '({0}) < y', 'f(*({0}))',
-                '({0})[i]', '({0})(z)', 'y ** ({0})', '({0}) ** y']
+                '({0})[i]', '({0})(z)', 'y ** ({0})', '({0}) ** y',
+                # starred operands in displays and calls
+                '[*({0}), c]', '(*({0}), None)', '{{*({0}), 3}}', 'f(*({0}), k=1)', 'f(**({0}))', '{{**({0}), k: v}}']
     for w in wrappers:
         for f in forms:
             if f.startswith('*'):
@@ -124,8 +128,11 @@ def _check(case):
                 'class': 'unparsable:' + _shape(src), 'short_tuple': _short_tuple(src)}
     want = _norm(src)
     if got != want:
+        # listed findings, recognised by "the disagreement disappears once that sub-expression is replaced"
+        flags = {'float_inf': _float_inf(src), 'slice_tuple_bound': _slice_tuple(src), 'regex_redisplay': _regex_redisplay(src)}
         return {'observed': f'{src!r} is displayed as {text!r}', 'required': 'reads back as the same expression',
-                'class': 'meaning:' + _shape(src), 'shape': _shape(src), 'short_tuple': _short_tuple(src)}
+                'class': 'meaning:' + _shape(src) + ''.join('+' + k for k, v in flags.items() if v), 'shape': _shape(src),
+                'short_tuple': _short_tuple(src), **flags}
     return None
 
 
@@ -148,6 +155,60 @@ def _short_tuple(src):
         return _norm(text) == _norm(padded)
     except Exception:
         return False
+
+
+def _neutralised_ok(src, present, transform):
+    """the expression has the feature, and the disagreement disappears once the feature is replaced by something harmless"""
+    t = ast.parse(src, mode='eval').body
+    if not any(present(n) for n in ast.walk(t)):
+        return False
+    try:
+        neutral = ast.unparse(ast.fix_missing_locations(transform().visit(t)))
+        text, r = _text(neutral)
+        return _norm(text) == _norm(neutral)
+    except Exception:
+        return False
+
+
+def _is_inf(n):
+    return isinstance(n, ast.Constant) and isinstance(n.value, float) and n.value in (float('inf'), float('-inf'))
+
+
+def _float_inf(src):
+    class T(ast.NodeTransformer):
+        def visit_Constant(self, node):
+            return ast.Constant(value=1.5) if _is_inf(node) else node
+    return _neutralised_ok(src, _is_inf, T)
+
+
+def _is_slice_tuple(n):
+    return isinstance(n, ast.Slice) and any(isinstance(b, ast.Tuple) for b in (n.lower, n.upper, n.step) if b is not None)
+
+
+def _slice_tuple(src):
+    class T(ast.NodeTransformer):
+        def visit_Slice(self, node):
+            self.generic_visit(node)
+            for f in ('lower', 'upper', 'step'):
+                if isinstance(getattr(node, f), ast.Tuple):
+                    setattr(node, f, ast.Name(id='bound_', ctx=ast.Load()))
+            return node
+    return _neutralised_ok(src, _is_slice_tuple, T)
+
+
+def _is_re_compile(n):
+    return isinstance(n, ast.Call) and ast.unparse(n.func) == 're.compile' and n.args and isinstance(n.args[0], ast.Constant) \
+        and isinstance(n.args[0].value, str) and ('\\-' in n.args[0].value or '(?i:' in n.args[0].value)
+
+
+def _regex_redisplay(src):
+    class T(ast.NodeTransformer):
+        def visit_Call(self, node):
+            self.generic_visit(node)
+            if _is_re_compile(node):
+                node.args[0] = ast.Constant(value='abc')
+            return node
+    return _neutralised_ok(src, _is_re_compile, T)
 
 
 def _shape(src):
@@ -192,11 +253,32 @@ def _check_trunc(case):
     return None
 
 
+ANN_SOURCES = [
+    "def f(a: t.Literal['on', 'off'], b: typing_extensions.Literal['r', 'w'] = 'r') -> typing.Literal['x y']:\n    pass\n",
+    "def f(a: Literal['a b', 1, None], b: 'List[t.Literal[\"q\"]]', c: \"typing.Literal['z']\") -> 'a.B':\n    pass\n",
+    "def f(a: List['a.B'] = [], *args: 'int', k: t.Literal['only'] = 'only', **kw: \"List['str']\"):\n    pass\n",
+    "def f(a: typing_extensions.Literal['pass', 'class']) -> List[typing_extensions.Literal['x']]:\n    pass\n",
+]
+
+
+def _ann_cases(tier, seed):
+    for s_ in ANN_SOURCES:
+        yield {'src': s_}
+
+
+def _check_ann(case):
+    """annotations are displayed expressions too: as written, string annotations unquoted, the arguments of (any spelling of) Literal untouched"""
+    from replay import c14
+    return c14._check(case)
+
+
 HARNESS = {
     f'{P}:PyvalColorizer.colorize': {'cases': _cases, 'check': _check,
         'covers': [f'{P}:_OperatorDelimiter.__init__', f'{P}:_OperatorDelimiter.__exit__'],
         'budget_s': {'quick': 60, 'thorough': 600},
         'bound': 'every operator chain of depth three over 13 binary, 4 unary and 2 boolean operators with either grouping; 45 expression forms and 21 wrappers (depth two); 300 (5000) random deeper trees; oracle: the text parses back to the same AST'},
+    'pydoctor/astutils.py:unstring_annotation': {'cases': _ann_cases, 'check': _check_ann,
+        'bound': '4 signatures whose annotations use Literal under four spellings, nested in string annotations and generics; read back as Python'},
     f'{P}:PyvalColorizer._output': {'cases': _trunc_cases, 'check': _check_trunc,
         'bound': '6 values x 5 line lengths x 4 max-lines x {linebreakok}'},
 }
